@@ -23,13 +23,19 @@ NONE, DEFAULT = -1000, -1
 INST_T = 2
 ENTRIES = ['expect', 'expect_exact', 'expect_list', 'expect_loop', 'read_nonblocking', 'waitnoecho']
 TRANSPORTS = ['pty', 'pipe', 'socket', 'popen']
+FD_KINDS = ('pipe', 'pty', 'sockfd', 'fifo', 'tcp')
 
 
 def make_world(transport, workdir, k=0):
     if transport == 'pty':
         return PtyWorld(workdir, use_poll=bool(k % 2))
     if transport == 'pipe':
-        return FdWorld(workdir, kind=('pipe', 'pty', 'sockfd')[k % 3], use_poll=bool((k // 3) % 2))
+        return FdWorld(workdir, kind=FD_KINDS[k % len(FD_KINDS)], use_poll=bool((k // len(FD_KINDS)) % 2))
+    if transport == 'tcpfd':
+        # the descriptor on which the peer can wake the wait without data (urgent data).  select() flavour only:
+        # fdspawn(use_poll=True) registers POLLPRI, takes the urgent condition for readability and then sits in a
+        # blocking os.read() whatever the timeout - a defect of the unchanged tree (reported), left out here
+        return FdWorld(workdir, kind='tcp', use_poll=False)
     if transport == 'socket':
         return SockWorld(workdir, user_timeout=None)
     if transport == 'popen':
@@ -51,7 +57,7 @@ def execute(args):
         kinds = [e[1] for e in events if e[1] in ('x', 'm')]
         w.unit = lambda i: kinds[i].encode('ascii') if i < len(kinds) else b'?'
         hang = 'PeerExit' if transport == 'pty' else 'PeerClose'
-        lab = {'x': 'PeerWrite(1)', 'm': 'PeerWrite(1)', 'H': hang, 'C': 'PeerCloseTty', 'E': 'EchoOff'}
+        lab = {'x': 'PeerWrite(1)', 'm': 'PeerWrite(1)', 'H': hang, 'C': 'PeerCloseTty', 'E': 'EchoOff', 'U': 'PeerUrgent'}
         if entry == 'waitnoecho':
             import termios
             orig_peer = w.peer
@@ -158,6 +164,23 @@ def gen_schedules(rng, quick):
             for ev in evsets:
                 if all(k != 'x' for t, k in ev):
                     out.append(('read_nonblocking', targ, start, ev))
+    # the peer wakes the wait without data (urgent data on a TCP descriptor): alone, before / after output or a hang-up
+    uvsets = []
+    for t1 in times:
+        uvsets.append(((t1, 'U'),))
+        for t2 in range(t1, 5):
+            for k2 in 'xmH':
+                uvsets.append(((t1, 'U'), (t2, k2)))
+        for t0 in range(0, t1 + 1):
+            for k0 in 'xm':
+                uvsets.append(((t0, k0), (t1, 'U')))
+    for entry in ('expect', 'expect_exact', 'expect_list', 'expect_loop', 'read_nonblocking'):
+        for targ in targs:
+            for start in (0, 1):
+                for ev in uvsets:
+                    if entry == 'read_nonblocking' and any(k == 'x' for t, k in ev):
+                        continue
+                    out.append((entry, targ, start, ev))
     for targ in [DEFAULT, NONE, 0, 2, 3]:
         for start in (0, 1):
             for te in list(range(0, 6)) + [None]:
@@ -176,15 +199,39 @@ def gen_schedules(rng, quick):
 
 
 def wall_case(args):
-    """real time, no interposition: a silent (or late-talking) peer, T with a fractional part, select and poll"""
-    kind, use_poll, T, talk_at = args
-    import time as _t, threading
+    """real time, no interposition: a silent (or late-talking) peer, T with a fractional part, select and poll;
+    optionally a signal handled by the parent every 50 ms while it waits (the real select()/poll() are interrupted and
+    re-entered), or urgent data pending on a TCP descriptor (an exceptional condition, nothing readable)"""
+    kind, use_poll, T, talk_at = args[:4]
+    signals = len(args) > 4 and args[4]
+    import time as _t, threading, signal, socket
     from pexpect import fdpexpect
-    res = {'kind': kind, 'use_poll': use_poll, 'T': T, 'talk_at': talk_at}
+    res = {'kind': kind, 'use_poll': use_poll, 'T': T, 'talk_at': talk_at, 'signals': bool(signals)}
+    nsig = [0]
     try:
         if kind == 'pty':
             child = pexpect.spawn('/bin/sh', ['-c', 'sleep %s; echo m; sleep 5' % talk_at if talk_at else 'sleep 5'], use_poll=use_poll, echo=False)
             closer = lambda: child.close(force=True)
+        elif kind == 'tcp-urgent':
+            ls = socket.socket(socket.AF_INET, socket.SOCK_STREAM)
+            ls.bind(('127.0.0.1', 0))
+            ls.listen(1)
+            b = socket.create_connection(ls.getsockname())
+            a, _ = ls.accept()
+            ls.close()
+            b.send(b'!', socket.MSG_OOB)
+            import select as _sel
+            t1 = _t.time()
+            while not _sel.select([], [], [a], 0)[2]:
+                if _t.time() - t1 > 30:
+                    raise RuntimeError('urgent data did not arrive')
+                _t.sleep(0.001)
+            child = fdpexpect.fdspawn(a.fileno(), use_poll=use_poll)
+            th = None
+            if talk_at:
+                th = threading.Timer(talk_at, lambda: b.sendall(b'm'))
+                th.start()
+            closer = lambda: (th and th.cancel(), b.close(), a.close())
         else:
             r, w = os.pipe()
             child = fdpexpect.fdspawn(r, use_poll=use_poll)
@@ -193,6 +240,11 @@ def wall_case(args):
                 th = threading.Timer(talk_at, lambda: os.write(w, b'm'))
                 th.start()
             closer = lambda: (th and th.cancel(), os.close(w), os.close(r))
+        if signals:
+            def handler(signum, frame):
+                nsig[0] += 1
+            old = signal.signal(signal.SIGALRM, handler)
+            signal.setitimer(signal.ITIMER_REAL, 0.05, 0.05)
         t0 = _t.time()
         try:
             child.expect_exact(b'm', timeout=T)
@@ -201,7 +253,12 @@ def wall_case(args):
             res['outcome'] = 'TIMEOUT'
         except pexpect.EOF:
             res['outcome'] = 'EOF'
-        res['elapsed'] = round(_t.time() - t0, 3)
+        finally:
+            res['elapsed'] = round(_t.time() - t0, 3)
+            if signals:
+                signal.setitimer(signal.ITIMER_REAL, 0, 0)
+                signal.signal(signal.SIGALRM, old)
+                res['signals_handled'] = nsig[0]
         closer()
     except Exception:
         res['error'] = traceback.format_exc()
@@ -215,6 +272,13 @@ def wall_clock(ctx, pool):
             for T in (0.4, 0.8, 1.5):
                 jobs.append((kind, use_poll, T, None))
             jobs.append((kind, use_poll, 0.9, 0.3))
+            # signals handled by the parent while it waits
+            jobs.append((kind, use_poll, 0.7, None, True))
+            jobs.append((kind, use_poll, 0.9, 0.3, True))
+    # an exceptional condition on the descriptor while it waits (select() flavour; see make_world for poll())
+    jobs.append(('tcp-urgent', False, 0.6, None))
+    jobs.append(('tcp-urgent', False, 0.9, 0.3))
+    jobs.append(('tcp-urgent', False, 0.7, None, True))
     outs = pool.map(wall_case, jobs, chunksize=1)
 
     def bad(o):
@@ -230,7 +294,10 @@ def wall_clock(ctx, pool):
     for o in outs:
         if 'error' in o:
             raise tlc.TLCError('wall-clock run crashed: %s' % o['error'])
-        case = {'wall_clock': True, 'transport': o['kind'], 'use_poll': o['use_poll'], 'T': o['T'], 'peer_talks_at': o['talk_at']}
+        if o['signals'] and o['outcome'] == 'TIMEOUT' and o['signals_handled'] < 3:
+            raise tlc.TLCError('wall-clock run: the interval timer did not interrupt the wait (%s)' % o)
+        case = {'wall_clock': True, 'transport': o['kind'], 'use_poll': o['use_poll'], 'T': o['T'], 'peer_talks_at': o['talk_at'],
+                'signals': o['signals']}
         sig = {'transport': o['kind'], 'wall_clock': True}
         if o['talk_at']:
             if o['outcome'] != 'match' or o['elapsed'] > o['T']:
@@ -256,13 +323,13 @@ def run(ctx):
     if not res['ok']:
         raise tlc.TLCError('Deadline: %s, see %s' % (res['violated'] or 'TLC failed', res['out']))
     cov = tlc.run('MCDeadline', 'Deadline_cov.cfg', ctx.work, workers=8, timeout=600, coverage=True, outname='deadline_cov.out')
-    for act in ('Enter', 'Check', 'Read', 'Waiting', 'Recompute', 'WnePoll', 'WneRecompute', 'Tick', 'PeerEmit', 'PeerHangup', 'PeerEchoOff'):
+    for act in ('Enter', 'Check', 'Read', 'Waiting', 'Woken', 'Recompute', 'WnePoll', 'WneRecompute', 'Tick', 'PeerEmit', 'PeerHangup', 'PeerEchoOff', 'EnvWake'):
         if cov['coverage'].get(act, (0, 0))[1] == 0:
             raise tlc.TLCError('Deadline: action %s never taken (vacuous run)' % act)
     ctx.note('TLC Deadline: %d distinct states, %d generated, depth %d; Bounded / NotEarly / NoneNeverTimesOut / ZeroStillLooks / '
              'MinusOneIsDefault / MatchBeatsTimeout hold' % (res['distinct'], res['generated'], res['depth']))
     sens = {}
-    for dev, inv in (('DevExpectLoop', 'MinusOneIsDefault'), ('DevPerRead', 'Bounded')):
+    for dev, inv in (('DevExpectLoop', 'MinusOneIsDefault'), ('DevPerRead', 'Bounded'), ('DevWake', 'NotEarly')):
         txt = open(os.path.join(tlc.SPEC, 'Deadline_quick.cfg')).read().replace('Devs = {}', 'Devs <- ' + dev)
         p = os.path.join(ctx.work, dev + '.cfg')
         open(p, 'w').write(txt)
@@ -293,6 +360,8 @@ def run(ctx):
             trs = ['pty'] if entry == 'waitnoecho' else TRANSPORTS
             if entry == 'read_nonblocking':
                 trs = ['pty', 'pipe', 'socket']      # PopenSpawn.read_nonblocking never waits: "nothing yet" is an empty read
+            if any(k == 'U' for t, k in ev):
+                trs = ['tcpfd']
             for tr in trs:
                 if quick and entry != 'waitnoecho' and rng.random() > 0.12:
                     continue
@@ -307,7 +376,8 @@ def run(ctx):
         recs = pool.map(execute, jobs, chunksize=4)
         nwall = wall_clock(ctx, pool)
     ctx.note('%d timed executions of %d entry points on %d transports in %.0fs' % (len(recs), len(ENTRIES), len(TRANSPORTS), time.time() - t0))
-    ctx.note('%d wall-clock runs (pty and pipe, select and poll, T in {0.4, 0.8, 1.5} s with a silent peer, a match arriving 0.3 s into a 0.9 s wait): '
+    ctx.note('%d wall-clock runs (pty and pipe, select and poll, T in {0.4, 0.8, 1.5} s with a silent peer, a match arriving 0.3 s into a 0.9 s wait; '
+             'the same with SIGALRM handled by the parent every 50 ms while it waits; a TCP descriptor with urgent data pending, select): '
              'TIMEOUT not before T, not later than T + 1.5 s' % nwall)
     errs = [r for r in recs if 'error' in r]
     if errs:
@@ -435,7 +505,7 @@ def replay(ctx):
     if 'schedule' in c:
         return TR.replay(ctx)
     if c.get('wall_clock'):
-        o = wall_case((c['transport'], c['use_poll'], c['T'], c['peer_talks_at']))
+        o = wall_case((c['transport'], c['use_poll'], c['T'], c['peer_talks_at'], c.get('signals', False)))
         print(json.dumps(o))
         bad = (o['peer_talks_at'] if 'peer_talks_at' in o else o['talk_at'])
         ok = (o['outcome'] == 'match' and o['elapsed'] <= o['T']) if o['talk_at'] else (o['outcome'] == 'TIMEOUT' and o['T'] - 0.02 <= o['elapsed'] <= o['T'] + 0.5)
